@@ -18,8 +18,9 @@ ISOLATE_RUNS = True  # every run in its own forked process: leaks between runs c
 RULE = (
     "one evaluation = one analysis call with one option tuple (drawn without repetition from the entry point's option "
     "cross-product by a seeded affine permutation) on one seeded spectrum under one seeded deployment/schedule; distinct = "
-    "distinct (entry group, option tuple index, spectrum, delivery/completion permutations, fired faults); non-trivial = the call went "
-    "past argument validation (at least one progress step or pool task) "
+    "distinct (workload i.e. entry group + option tuple + spectrum, delivery/completion permutations, fired faults); non-trivial = at "
+    "least one pool call completed or delivered out of submission order or a fault kind fired (calls that went past argument "
+    "validation are counted separately in probes.went_past_validation, option tuples reached in option_tuples_reached)"
 )
 ASSUMPTIONS = [
     "'refused up front' is operational: library exception type at any time, or TypeError/ValueError raised before any pool task was submitted and either before the first progress step or (at most one step) in the entry function's own body",
